@@ -5,14 +5,18 @@
  *                 S <0|1>        libast_set_silent(flag)              -> "S <flag> <returned>"
  *                 Y <statement>  as X, but one earlier write on stderr has FAILED in that child (fd 2 pointed at a full non-blocking
  *                                pipe for one fputs(), then fd 2 is restored; clearerr() is NOT called): history must not matter
- *                 X <statement>  run the statement in a forked child with fd 2 captured
- *                                -> "X <statement> out=<none|debug|warning|error|fatal> eval=<n> ctl=<falls|returns|exits|signal:N>
+ *                 X <statement> [<context> [<message size>]]  run the statement in a forked child with fd 2 captured;
+ *                                context = alone | braced | then_true | then_false | loop2 (the statement as the unbraced then-arm
+ *                                of an if/else with the outer condition true / false, as the unbraced body of a 2-iteration loop);
+ *                                message size = length of the %s argument of the message (D_*, DPRINTFn, printers)
+ *                                -> "X <statement> <context> <size> out=<none|debug|warning|error|fatal> eval=<n> ctl=<falls|returns|exits|signal:N>
  *                                    val=<n> status=<n> bytes=<n> text=<0|1>"
  *   eval  = how often the argument expression (message argument / asserted condition) was evaluated
  *   ctl   = fell through the statement / the enclosing function returned at the statement / the process ended
  *   val   = value returned by the enclosing function (7 = the stated failure value, 1000 = fell through)
  *   bytes = bytes written to the stream; text = the statement's own message is among them - for ASSERT/REQUIRE the marker
  *           AND the text of the failed expression verbatim (the _pct probes use expressions containing "% s" and "%d")
+ *   count = how often the complete message appears; else = the else arm of the enclosing if was executed
  *   ferr  = (Y only) the failed write did set the stream's error indicator, i.e. the history was really provoked
  */
 #include <config.h>
@@ -34,36 +38,44 @@ static int cond_hold(void) { counter++; return 1; }
 static int pct_fail(int a, int b) { counter++; (void) a; (void) b; return 0; }
 static int total = 7, s = 4, n = 9, d = 2;       /* names chosen so that the expression text reads like printf conversions */
 
-#define GATED(name) static int f_##name(void) { name(("PAYLOAD %d\n", bump())); return 1000; }
-GATED(D_OPTIONS) GATED(D_OBJ) GATED(D_CONF) GATED(D_MEM) GATED(D_STRINGS) GATED(D_PARSE)
-GATED(DPRINTF1) GATED(DPRINTF2) GATED(DPRINTF3) GATED(DPRINTF4) GATED(DPRINTF5) GATED(DPRINTF6)
+static volatile int outer = 1;       /* condition of the enclosing if of the then-arm context */
+static const char *big = "";         /* message argument of the requested length (size sweep) */
+#define ELSE_TAKEN (shared[2])
+#define MSG ("PAYLOAD %d %s\n", bump(), big)
 
-static void v_ASSERT_hold(void) { ASSERT(cond_hold()); fell = 1; }
-static void v_ASSERT_fail(void) { ASSERT(cond_fail()); fell = 1; }
-static void v_REQUIRE_hold(void) { REQUIRE(cond_hold()); fell = 1; }
-static void v_REQUIRE_fail(void) { REQUIRE(cond_fail()); fell = 1; }
-static int f_ASSERT_hold(void) { fell = 0; v_ASSERT_hold(); return fell ? 1000 : 7; }
-static int f_ASSERT_fail(void) { fell = 0; v_ASSERT_fail(); return fell ? 1000 : 7; }
-static int f_REQUIRE_hold(void) { fell = 0; v_REQUIRE_hold(); return fell ? 1000 : 7; }
-static int f_REQUIRE_fail(void) { fell = 0; v_REQUIRE_fail(); return fell ? 1000 : 7; }
-static int f_ASSERT_RVAL_hold(void) { ASSERT_RVAL(cond_hold(), 7); return 1000; }
-static int f_ASSERT_RVAL_fail(void) { ASSERT_RVAL(cond_fail(), 7); return 1000; }
-static int f_REQUIRE_RVAL_hold(void) { REQUIRE_RVAL(cond_hold(), 7); return 1000; }
-static int f_REQUIRE_RVAL_fail(void) { REQUIRE_RVAL(cond_fail(), 7); return 1000; }
-static void v_ASSERT_fail_pct(void) { ASSERT(pct_fail(total % s, n %d)); fell = 1; }
-static void v_REQUIRE_fail_pct(void) { REQUIRE(pct_fail(total % s, n %d)); fell = 1; }
-static int f_ASSERT_fail_pct(void) { fell = 0; v_ASSERT_fail_pct(); return fell ? 1000 : 7; }
-static int f_REQUIRE_fail_pct(void) { fell = 0; v_REQUIRE_fail_pct(); return fell ? 1000 : 7; }
-static int f_ASSERT_RVAL_fail_pct(void) { ASSERT_RVAL(pct_fail(total % s, n %d), 7); return 1000; }
-static int f_REQUIRE_RVAL_fail_pct(void) { REQUIRE_RVAL(pct_fail(total % s, n %d), 7); return 1000; }
-static int f_print_warning(void) { libast_print_warning("PAYLOAD %d\n", bump()); return 1000; }
-static int f_print_error(void) { libast_print_error("PAYLOAD %d\n", bump()); return 1000; }
-static int f_dprintf(void) { libast_dprintf("PAYLOAD %d\n", bump()); return 1000; }
-static int f_fatal_error(void) { libast_fatal_error("PAYLOAD %d\n", bump()); return 1000; }
+/* every statement in four syntactic contexts: stand-alone, braced, unbraced then-arm of an if/else, unbraced loop body */
+#define STMT(tag, stmt) \
+    static int f_##tag##_alone(void)  { stmt; return 1000; } \
+    static int f_##tag##_braced(void) { { stmt; } return 1000; } \
+    static int f_##tag##_then(void)   { if (outer) stmt; else ELSE_TAKEN = 1; return 1000; } \
+    static int f_##tag##_loop(void)   { int i; for (i = 0; i < 2; i++) stmt; return 1000; }
+/* the void forms (ASSERT / REQUIRE) return from a void function: "fell" tells whether control came out at the bottom */
+#define VSTMT(tag, stmt) \
+    static void v_##tag##_alone(void)  { stmt; fell = 1; } \
+    static void v_##tag##_braced(void) { { stmt; } fell = 1; } \
+    static void v_##tag##_then(void)   { if (outer) stmt; else ELSE_TAKEN = 1; fell = 1; } \
+    static void v_##tag##_loop(void)   { int i; for (i = 0; i < 2; i++) stmt; fell = 1; } \
+    static int f_##tag##_alone(void)  { fell = 0; v_##tag##_alone(); return fell ? 1000 : 7; } \
+    static int f_##tag##_braced(void) { fell = 0; v_##tag##_braced(); return fell ? 1000 : 7; } \
+    static int f_##tag##_then(void)   { fell = 0; v_##tag##_then(); return fell ? 1000 : 7; } \
+    static int f_##tag##_loop(void)   { fell = 0; v_##tag##_loop(); return fell ? 1000 : 7; }
 
-static struct { const char *name; int (*fn)(void); const char *text; const char *expr; } T[] = {
-#define E(n, t) { #n, f_##n, t, NULL }
-#define X(n, t, e) { #n, f_##n, t, e }
+STMT(D_OPTIONS, D_OPTIONS(MSG)) STMT(D_OBJ, D_OBJ(MSG)) STMT(D_CONF, D_CONF(MSG)) STMT(D_MEM, D_MEM(MSG))
+STMT(D_STRINGS, D_STRINGS(MSG)) STMT(D_PARSE, D_PARSE(MSG))
+STMT(DPRINTF1, DPRINTF1(MSG)) STMT(DPRINTF2, DPRINTF2(MSG)) STMT(DPRINTF3, DPRINTF3(MSG))
+STMT(DPRINTF4, DPRINTF4(MSG)) STMT(DPRINTF5, DPRINTF5(MSG)) STMT(DPRINTF6, DPRINTF6(MSG))
+VSTMT(ASSERT_hold, ASSERT(cond_hold())) VSTMT(ASSERT_fail, ASSERT(cond_fail()))
+VSTMT(REQUIRE_hold, REQUIRE(cond_hold())) VSTMT(REQUIRE_fail, REQUIRE(cond_fail()))
+STMT(ASSERT_RVAL_hold, ASSERT_RVAL(cond_hold(), 7)) STMT(ASSERT_RVAL_fail, ASSERT_RVAL(cond_fail(), 7))
+STMT(REQUIRE_RVAL_hold, REQUIRE_RVAL(cond_hold(), 7)) STMT(REQUIRE_RVAL_fail, REQUIRE_RVAL(cond_fail(), 7))
+VSTMT(ASSERT_fail_pct, ASSERT(pct_fail(total % s, n %d))) VSTMT(REQUIRE_fail_pct, REQUIRE(pct_fail(total % s, n %d)))
+STMT(ASSERT_RVAL_fail_pct, ASSERT_RVAL(pct_fail(total % s, n %d), 7)) STMT(REQUIRE_RVAL_fail_pct, REQUIRE_RVAL(pct_fail(total % s, n %d), 7))
+STMT(print_warning, libast_print_warning MSG) STMT(print_error, libast_print_error MSG)
+STMT(dprintf, libast_dprintf MSG) STMT(fatal_error, libast_fatal_error MSG)
+
+static struct { const char *name; int (*fn[4])(void); const char *text; const char *expr; } T[] = {
+#define E(n, t) { #n, { f_##n##_alone, f_##n##_braced, f_##n##_then, f_##n##_loop }, t, NULL }
+#define X(n, t, e) { #n, { f_##n##_alone, f_##n##_braced, f_##n##_then, f_##n##_loop }, t, e }
     E(D_OPTIONS, "PAYLOAD 42"), E(D_OBJ, "PAYLOAD 42"), E(D_CONF, "PAYLOAD 42"), E(D_MEM, "PAYLOAD 42"), E(D_STRINGS, "PAYLOAD 42"), E(D_PARSE, "PAYLOAD 42"),
     E(DPRINTF1, "PAYLOAD 42"), E(DPRINTF2, "PAYLOAD 42"), E(DPRINTF3, "PAYLOAD 42"), E(DPRINTF4, "PAYLOAD 42"), E(DPRINTF5, "PAYLOAD 42"), E(DPRINTF6, "PAYLOAD 42"),
     X(ASSERT_hold, "ASSERT failed", "cond_hold()"), X(ASSERT_fail, "ASSERT failed", "cond_fail()"),
@@ -73,8 +85,9 @@ static struct { const char *name; int (*fn)(void); const char *text; const char 
     X(ASSERT_fail_pct, "ASSERT failed", "pct_fail(total % s, n %d)"), X(ASSERT_RVAL_fail_pct, "ASSERT failed", "pct_fail(total % s, n %d)"),
     X(REQUIRE_fail_pct, "REQUIRE failed", "pct_fail(total % s, n %d)"), X(REQUIRE_RVAL_fail_pct, "REQUIRE failed", "pct_fail(total % s, n %d)"),
     E(print_warning, "PAYLOAD 42"), E(print_error, "PAYLOAD 42"), E(dprintf, "PAYLOAD 42"), E(fatal_error, "PAYLOAD 42"),
-    { NULL, NULL, NULL }
+    { NULL, { NULL, NULL, NULL, NULL }, NULL, NULL }
 };
+static const char *CTX[] = { "alone", "braced", "then_true", "then_false", "loop2", NULL };
 
 #include <fcntl.h>
 #include <errno.h>
@@ -93,13 +106,20 @@ static int provoke_failed_write(int capture_fd) {
     return ferror(stderr) != 0;
 }
 
-static void run_cell(int k, int hist) {
-    int ep[2], rp[2], status = 0, res[2] = { -1, -1 }, got = 0;
-    static char buf[1 << 16], tmp[1 << 16]; size_t n = 0, total = 0; ssize_t c; pid_t pid;
-    const char *cls, *ctl; char sig[32];
+static char *make_big(size_t size) {          /* `size` bytes, no '%', no newline, position-dependent so that a shifted copy differs */
+    char *b = (char *) malloc(size + 1); size_t k;
+    for (k = 0; k < size; k++) b[k] = (char) ('A' + (k * 7 + k / 26) % 26);
+    b[size] = 0;
+    return b;
+}
+
+static void run_cell(int k, int hist, int ctx, size_t size) {
+    int ep[2], rp[2], status = 0, res[2] = { -1, -1 }, got = 0, text, count = 0;
+    static char buf[1 << 18], tmp[1 << 16]; size_t n = 0, total = 0; ssize_t c; pid_t pid;
+    const char *cls, *ctl; char sig[32]; char *bigarg = make_big(size);
     if (pipe(ep) || pipe(rp)) { perror("pipe"); exit(2); }
     fflush(stdout);
-    counter = 0; shared[1] = 0;
+    counter = 0; shared[1] = 0; ELSE_TAKEN = 0;
     pid = fork();
     if (pid < 0) { perror("fork"); exit(2); }
     if (pid == 0) {
@@ -110,14 +130,16 @@ static void run_cell(int k, int hist) {
         alarm(10);
         if (hist) shared[1] = provoke_failed_write(ep[1]);
         close(ep[1]);
-        v = T[k].fn();
+        big = bigarg;
+        outer = (ctx != 3);
+        v = T[k].fn[ctx == 0 ? 0 : (ctx == 1 ? 1 : (ctx == 4 ? 3 : 2))]();
         fflush(stderr);
         res[0] = v; res[1] = 0;
         if (write(rp[1], res, sizeof(res)) < 0) { }
         _exit(0);
     }
     close(ep[1]); close(rp[1]);
-    while ((c = read(ep[0], tmp, sizeof(tmp))) > 0) {                   /* keep the first 64 KiB, drain the rest */
+    while ((c = read(ep[0], tmp, sizeof(tmp))) > 0) {                   /* keep the first 256 KiB, drain the rest */
         size_t room = sizeof(buf) - 1 - n, take = (size_t) c < room ? (size_t) c : room;
         memcpy(buf + n, tmp, take); n += take;
         total += (size_t) c;
@@ -135,9 +157,21 @@ static void run_cell(int k, int hist) {
     if (WIFSIGNALED(status)) { snprintf(sig, sizeof(sig), "signal:%d", WTERMSIG(status)); ctl = sig; }
     else if (!got) ctl = "exits";
     else ctl = (res[0] == 1000) ? "falls" : "returns";
-    printf("%c %s out=%s eval=%d ctl=%s val=%d status=%d bytes=%lu text=%d ferr=%d\n", hist ? 'Y' : 'X', T[k].name, cls,
-           counter, ctl, got ? res[0] : -1, WIFEXITED(status) ? WEXITSTATUS(status) : -1, (unsigned long) total,
-           strstr(buf, T[k].text) != NULL && (!T[k].expr || strstr(buf, T[k].expr) != NULL), shared[1]);
+    if (T[k].expr) {
+        const char *q = buf;
+        text = strstr(buf, T[k].text) != NULL && strstr(buf, T[k].expr) != NULL;
+        while ((q = strstr(q, T[k].text)) != NULL) { count++; q++; }
+    } else {                                    /* the complete message, byte for byte: "PAYLOAD 42 <size bytes>\n" */
+        size_t need = strlen(T[k].text) + 1 + size + 1; char *msg = (char *) malloc(need + 1); const char *q = buf;
+        snprintf(msg, need + 1, "%s %s\n", T[k].text, bigarg);
+        text = strstr(buf, msg) != NULL;
+        while ((q = strstr(q, msg)) != NULL) { count++; q += need; }
+        free(msg);
+    }
+    printf("%c %s %s %lu out=%s eval=%d ctl=%s val=%d status=%d bytes=%lu text=%d count=%d else=%d ferr=%d\n", hist ? 'Y' : 'X', T[k].name,
+           CTX[ctx], (unsigned long) size, cls, counter, ctl, got ? res[0] : -1, WIFEXITED(status) ? WEXITSTATUS(status) : -1,
+           (unsigned long) total, text, count, ELSE_TAKEN, shared[1]);
+    free(bigarg);
 }
 
 int main(int argc, char **argv) {
@@ -158,9 +192,14 @@ int main(int argc, char **argv) {
         if (line[0] == 'L') { libast_debug_level = (unsigned) atoi(line + 2); printf("L %u\n", libast_debug_level); }
         else if (line[0] == 'S') { int b = atoi(line + 2); printf("S %d %d\n", b, (int) libast_set_silent(b ? TRUE : FALSE)); }
         else if (line[0] == 'X' || line[0] == 'Y') {
-            for (k = 0; T[k].name && strcmp(T[k].name, line + 2); k++) ;
-            if (!T[k].name) { printf("X %s unknown\n", line + 2); continue; }
-            run_cell(k, line[0] == 'Y');
+            char nm[64], cx[32]; unsigned long size = 0; int ctx;
+            cx[0] = 0;
+            if (sscanf(line + 2, "%63s %31s %lu", nm, cx, &size) < 1) continue;
+            if (!cx[0]) strcpy(cx, "alone");
+            for (k = 0; T[k].name && strcmp(T[k].name, nm); k++) ;
+            for (ctx = 0; CTX[ctx] && strcmp(CTX[ctx], cx); ctx++) ;
+            if (!T[k].name || !CTX[ctx]) { printf("X %s unknown\n", line + 2); continue; }
+            run_cell(k, line[0] == 'Y', ctx, (size_t) size);
         }
     }
     free(text);
